@@ -13,6 +13,7 @@ mod c15;
 mod c04;
 mod c03;
 mod c20;
+mod c16;
 
 fn main() {
     let mode = std::env::args().nth(1).unwrap_or_default();
@@ -62,6 +63,7 @@ fn dispatch(mode: &str, line: &str) -> String {
         "c03" => c03::run_print(line),
         "c14" => c03::run_spans(line),
         "c20" => c20::run(line),
+        "c16" => c16::run(line),
         _ => format!("bad-mode {mode}"),
     }
 }
